@@ -262,6 +262,8 @@ def execute(spec, w, ctx):
                 gen_ = proc.mod("roberta_generator").gen_rnd_board
                 first = None
                 for k_ in range(times):
+                    if k_ % 64 == 0 and not w.quiet_budget_left():
+                        break
                     cur = gen_(p["seed"], p["length"], p["width"], p["lt"], p["max_reward"], p["force_down"])
                     if first is None:
                         first = cur
